@@ -140,6 +140,16 @@ def _series(shard, ctx, res, only):
             if rdev > lim:
                 res.violation({"site": "FourierSeries.ifft", "symptom": "round trip differs from the zero-padded input"}, case, f"n={n} max dev {rdev:.3e} limit {lim:.3e}")
                 continue
+            # user-supplied transforms (documented signatures fftn(array, n), ifftn(array, n)) must give the same round trip
+            try:
+                b2 = np.asarray(ts.rfft(np.fft.rfft).ifft(np.fft.irfft).data, dtype=np.float64)
+                if b2.shape != (ng,) or float(np.max(np.abs(b2 - xp))) > lim:
+                    res.violation({"site": "TimeSeries.rfft/FourierSeries.ifft", "symptom": "round trip with user-supplied numpy transforms differs from the zero-padded input"}, case,
+                                  f"n={n} n_fft={ng} got length {b2.shape}")
+                    continue
+            except Exception as e:  # noqa: BLE001
+                res.violation({"site": "TimeSeries.rfft/FourierSeries.ifft", "symptom": f"raised {type(e).__name__} with user-supplied numpy transforms"}, case, repr(e))
+                continue
             res.outcome("roundtrip/ok")
             if ng % 2:
                 res.outcome("roundtrip/odd_fft_size")
